@@ -28,9 +28,11 @@ class C09(Check):
               "because no scan API passes a timeout",
         "P5": "row start state: the worker bound for the rows receives y0=None - a row's initial values are applied to its model copy by the row wrapper, "
               "and a fixed y0 handed to the Simulator would replace them",
+        "P6": "row application: the row wrapper writes the row's initial values (keys that are variables of the model) and parameter values (keys that are "
+              "parameters) into the row's copy, exactly once each, and calls the worker on that copy",
         "P4": "failure channel: every worker returns through Result.default(<NaN Simulation of the right time points>)",
     }
-    floors = {"P1": 1, "P1b": 9, "P2": 6, "P3": 2, "P4": 4, "P5": 8}
+    floors = {"P1": 1, "P1b": 9, "P2": 6, "P3": 2, "P4": 4, "P5": 8, "P6": 1}
     decided = [
         "no row's (lazily evaluated) fluxes/variables can see another row's parameter values in sequential mode",
         "results are positionally aligned with the scan table in both execution modes",
@@ -90,6 +92,15 @@ class C09(Check):
                     y0s = [k.value for k in inner.keywords if k.arg == "y0"]
                 elif isinstance(inner, ast.Lambda):
                     y0s = [k.value for x in ast.walk(inner.body) if isinstance(x, ast.Call) for k in x.keywords if k.arg == "y0"]
+                if "y0" in [a.arg for a in fn.args.args + fn.args.kwonlyargs]:
+                    applied = [x for x in walk_no_nested(fn) if isinstance(x, ast.Call) and norm(x) == "model.update_variables(y0)" and x.lineno < c.lineno]
+                    guarded = [g for g in walk_no_nested(fn) if isinstance(g, ast.If) and norm(g.test) in ("y0 is not None", "y0") and any(any(z is a for z in ast.walk(g)) for a in applied)]
+                    forwarded = bool(y0s) and norm(y0s[0]) == "y0"
+                    if applied and (guarded or True):
+                        self.holds("P5", rel, name, "start-state-applied", applied[0], "a start state given by the caller is written into the model before the rows are dispatched")
+                    elif not forwarded:
+                        self.violated("P5", rel, name, "start-state-applied", c, "the caller's y0 reaches neither the model nor the row worker: it is silently ignored",
+                                      witness=f"{rel[:-3]}.{name}(model, ..., y0={{'x': 5.0}}) gives the results of the model's own initial values")
                 if y0s:
                     v = y0s[0]
                     if isinstance(v, ast.Constant) and v.value is None:
@@ -100,6 +111,7 @@ class C09(Check):
                                       witness="scan.steady_state(model, to_scan=DataFrame({'x': [1, 2, 3]}), y0={'y': 0.5}) simulates all three rows from the same x")
             if "timeout" in kw:
                 self.violated("P3", rel, name, "timeout-drops-rows", c, "a timeout is passed to parallelise: a row that times out is silently dropped and later rows shift up")
+        self.p6(w)
         self.p2(par, scan, mc, entries)
         self.p3(par)
         self.p4(scan)
@@ -313,6 +325,67 @@ class C09(Check):
                 self.violated("P4", SCAN, f.name, "nan-default", rets[0] if rets else f,
                               "the worker can return / raise without the NaN placeholder: a failing row aborts the scan or shifts positions",
                               witness="one row whose integration fails makes scan.* raise instead of yielding NaN at that row")
+
+    def p6(self, w) -> None:
+        """The row wrapper writes the row's values into the copy: its initial values and its parameters, each selected by membership in
+        the model's own container, before the worker is called on that copy."""
+        from ..interp import Sym, SymInterp
+
+        q = w.name
+        params = [a.arg for a in w.args.args + w.args.kwonlyargs]
+        row = params[0]
+        VARS = ("model._variables", "model.get_variable_names()", "model.get_raw_variables()", "model.get_initial_conditions()", "set(model._variables)", "set(model.get_variable_names())")
+        PARS = ("model._parameters", "model.get_parameter_names()", "model.get_raw_parameters()", "model.get_parameter_values()", "set(model._parameters)", "set(model.get_parameter_names())")
+        paths = [st for st, _ in SymInterp().run_function(w, Sym()).returns]
+        if not paths:
+            raise AnalysisError(f"{q}: no returning path")
+
+        def selection(txt, containers):
+            """`model.update_x({k: v for k, v in ROW.items() if k in <container>})` -> True / False / None (not recognised)."""
+            try:
+                c = ast.parse(txt, mode="eval").body
+            except SyntaxError:
+                return None
+            if not (isinstance(c, ast.Call) and c.args):
+                return None
+            a = c.args[0]
+            if isinstance(a, ast.DictComp) and len(a.generators) == 1:
+                g = a.generators[0]
+                if row not in norm(g.iter) or not isinstance(g.target, ast.Tuple) or len(g.target.elts) != 2:
+                    return None
+                k_, v_ = (norm(x) for x in g.target.elts)
+                if norm(a.key) != k_ or norm(a.value) != v_ or len(g.ifs) != 1:
+                    return False
+                t_ = g.ifs[0]
+                return isinstance(t_, ast.Compare) and len(t_.ops) == 1 and isinstance(t_.ops[0], ast.In) and norm(t_.left) == k_ and norm(t_.comparators[0]) in containers
+            return None
+
+        probs = []
+        unknown = False
+        for st in paths:
+            calls = [e[1] for e in st.events if e[0] == "call"]
+            ret = [e[1] for e in st.events if e[0] == "return"]
+            uv = [c for c in calls if c.startswith("model.update_variables(")]
+            up = [c for c in calls if c.startswith("model.update_parameters(")]
+            if not ret or "fn(model" not in ret[-1]:
+                probs.append("the worker is not called on the row's model copy")
+            for lst, cont, what in ((uv, VARS, "initial values"), (up, PARS, "parameter values")):
+                if len(lst) != 1:
+                    probs.append(f"the row's {what} are written {len(lst)} times")
+                    continue
+                sel = selection(lst[0], cont)
+                if sel is None:
+                    unknown = True
+                elif sel is False:
+                    probs.append(f"`{lst[0][:80]}` does not select the row's {what} by membership in the model's own container")
+        anchor = next((c for c in ast.walk(w) if isinstance(c, ast.Call) and norm(c.func) == "model.update_variables"), w)
+        if probs:
+            self.violated("P6", SCAN, q, "row-values-applied", anchor, sorted(set(probs))[0],
+                          witness="scan.steady_state(m, to_scan=DataFrame({'x': [1, 2]})) for a variable x: both rows start from the model's own x")
+        elif unknown:
+            self.undecided_ob("P6", SCAN, q, "row-values-applied", anchor, "the way the row's values are selected and written was not recognised")
+        else:
+            self.holds("P6", SCAN, q, "row-values-applied", anchor, "initial values and parameters of the row are written into the copy exactly once each, then fn(model)")
 
     def p4_grid(self, f, tp: str, params) -> None:
         """Protocol workers: the placeholder's time grid has the extent of a successful run."""
